@@ -77,6 +77,12 @@ INTERPLAY = [
     "def inner(*args, **kwargs):\n    return f(*args, **kwargs)\ninner(x)", "t = lambda *a, k=1, **kw: (a.la, k.lk, kw.lkw)\nt(x)",
     "def inner(p0, /, p1, *, ko, kd=2):\n    return p0.x0, p1.x1, ko.xo, kd.xd\ninner(x, y, ko=z)",
     "async def inner(*rest, flag=False):\n    return rest.r, flag.f\ninner(x)", "return (lambda *vs, **ks: (vs, ks))(x)",
+    # starred elements of unpacking targets are bound like the rest
+    "head, *rest = x.rows\nrest.r\nhead.h", "*init, last = x.rows\ninit.i", "for h, *t in x.pairs:\n    t.tt\nt.after",
+    "with x.cm() as (c1, *cs):\n    cs.c", "(u, (w, *more)) = x.nested\nmore.m",
+    # several ** unpackings in one call, keywords before and after an unpacking
+    "f(**a.x, **b.y)", "g(p.q, **a.x, k=v.w, **b.y, last=z.l)", "t = Cls(**a.x, **b.y)", "return Cls(x.r, **a.x, **b.y)",
+    "g(x, **d, key=v.w)", "g(first=a.f, **d.m, second=b.s, third=y.t)",
 ]
 
 # a second module environment: local callables that reuse the names of plugin-analysed builtins
